@@ -40,7 +40,8 @@ def ops_of(tree, acc=None):
 # that tree in doubles differs from the value of every other grouping in the last place (or grossly), so the grouping the
 # library really used is observable where exact arithmetic cannot tell ((a+b)+(c+d) from ((a+b)+c)+d).
 FLOAT_ENVS = [[1e16, 1.0, 1.0, 1.0], [0.1, 0.1, 0.1, 0.4], [0.1, 0.2, 0.3, 0.6], [1e16, -1e16, 1.0, 3.0],
-              [3.0, 1e-17, 1.0, -1e17], [0.7, 0.1, 1e15, 0.3], [3e-16, 1e-16, 0.0, 2.5e-16], [1e-300, -1e-300, 2e-300, 1.0]]
+              [3.0, 1e-17, 1.0, -1e17], [0.7, 0.1, 1e15, 0.3], [3e-16, 1e-16, 0.0, 2.5e-16], [1e-300, -1e-300, 2e-300, 1.0],
+              [1e308, 1.5, 5e307, 1.2e308]]      # finite results between 1E+308 and the largest double are results
 IEEE_OPS = {'+', '-', '*', '/', '=', '<>', '<', '>', '<=', '>='}
 
 
@@ -75,8 +76,12 @@ def ieee_eval(tree, env):
         if op == '/':
             if b == 0:
                 raise _Div0()
-            return a / b
-        return a + b if op == '+' else a - b if op == '-' else a * b
+            r = a / b
+        else:
+            r = a + b if op == '+' else a - b if op == '-' else a * b
+        if r != r or r in (float('inf'), float('-inf')):      # beyond the double range anywhere inside: not compared (an error value is due)
+            raise OverflowError
+        return r
     if isinstance(a, bool) != isinstance(b, bool):      # a number is smaller than a logical value
         lt = isinstance(b, bool)
         return {'=': False, '<>': True, '<': lt, '<=': lt, '>': not lt, '>=': not lt}[op]
